@@ -26,7 +26,7 @@ from harness import common as C
 PROP = "C17"
 HEADER = "Require Import Coq.QArith.QArith PF.Lib.ListX PF.Model.CatToNum."
 MODEL_TARGETS = ["Model/CatToNum.vo"]
-SHARD = 60
+SHARD = 45
 RULE = ("histories [call-before-fit]; fit; keys; (call | state_dict round trip)* of CatToNumTransform on directly "
         "built TensorFrames, one third of them interleaving 2-3 instances fitted on different data with the same "
         "column names (incl. save before / load after another instance's fit, repeated frames); distinct = distinct (task, #numerical, #categorical, num_classes, per call: rows kind, "
@@ -199,15 +199,24 @@ def call_step(rng, w, unseen_rate=0.06):
     return st
 
 
-def gen_schema(rng):
+def gen_schema(rng, lookalike=0.0):
+    """column names; at rate `lookalike` one numerical column is named like a generated column, '<cat>_<k>': a clash
+    with the output names when k < num_classes - 1 (fit must raise), harmless otherwise"""
     ncat = rng.wpick([(4, 1), (4, 2), (2, 3)])
     nnum = rng.wpick([(3, 0), (3, 1), (2, 2)])
-    return rng.sample(CAT_NAMES, ncat), rng.sample(NUM_NAMES, nnum)
+    cats, nums = rng.sample(CAT_NAMES, ncat), rng.sample(NUM_NAMES, nnum)
+    if rng.chance(lookalike):
+        name = f"{rng.pick(cats)}_{rng.pick([0, 0, 1, 2, 3])}"
+        if nums:
+            nums[rng.randrange(len(nums))] = name
+        else:
+            nums = [name]
+    return cats, nums
 
 
 def gen_single(rng):
     """one transform instance: [call before fit]; fit; keys; (call | round trip)*"""
-    w = make_world(rng, *gen_schema(rng))
+    w = make_world(rng, *gen_schema(rng, lookalike=0.08))
     steps = []
     if rng.chance(0.12):
         steps.append(unfitted_step(rng, w))
@@ -308,7 +317,7 @@ def exhaustive_small(rng):
 
 
 def generate(rng, tier):
-    n = 700 if tier == "quick" else 20000
+    n = 520 if tier == "quick" else 20000
     cases = [gen_case(rng, tier) for _ in range(n)]
     if tier == "thorough":
         cases += exhaustive_small(rng)
@@ -465,12 +474,22 @@ def run(case):
             else:
                 rec["names"], rec["cols"] = [], []
             rec["nrows"] = r.num_rows
+            # the labels are passed through untouched
+            if tf.y is None or r.y is None:
+                rec["y_same"] = tf.y is None and r.y is None
+            else:
+                rec["y_same"] = bool(r.y.dtype == tf.y.dtype and r.y.shape == tf.y.shape and torch.equal(
+                    torch.nan_to_num(r.y.double(), nan=-777.0), torch.nan_to_num(tf.y.double(), nan=-777.0)))
             out.append(rec)
     return {"steps": out}
 
 
 # ------------------------------------------------------------------ reference + oracle
 class RefErr(Exception):
+    pass
+
+
+class RefClash(Exception):
     pass
 
 
@@ -490,8 +509,12 @@ def ref_fit(frame, stats):
         k = 2
         prior = [sum(vals) / len(vals)]
     scale = max([Fr(1)] + [abs(fr(v)) if y["t"] == "float" else Fr(abs(v)) for v in y["v"] if v is not None])
-    return dict(n=n, k=k, prior=prior, stats=stats, cat_names=frame["cat"]["names"],
-                num_names=frame["num"]["names"] if frame["num"] else [], scale=scale)
+    fi = dict(n=n, k=k, prior=prior, stats=stats, cat_names=frame["cat"]["names"],
+              num_names=frame["num"]["names"] if frame["num"] else [], scale=scale)
+    names = ref_names(fi)
+    if len(set(names)) != len(names):
+        raise RefClash(names)      # names <-> statistics cannot be one-to-one: fit has to refuse
+    return fi
 
 
 def ref_names(fi):
@@ -555,6 +578,12 @@ def oracle(case, obs):
                 fis[inst] = ref_fit(st["frame"], st["stats"])
             except RefErr:
                 return None                     # fitting without usable target: outside the property
+            except RefClash as ex:
+                if o["ok"]:
+                    return fail(f"no-raise:name-clash:{task}", "fit accepted output column names that clash "
+                                "(names <-> transformed statistics cannot be one-to-one)", expected="raise",
+                                observed=ex.args[0])
+                return None
             tols[inst] = fit_tol(st)
             for j in others_fitted:
                 others_fitted[j] += 1
@@ -608,6 +637,9 @@ def oracle(case, obs):
                 return fail(f"not-new:{task}", f"step {k}: the transform returned the input object itself", observed=o)
             if o["has_cat"]:
                 return fail(f"cat-left:{task}", f"step {k}: the result still has categorical columns", observed=o)
+            if not o.get("y_same", True):
+                return fail(f"y-changed:{task}", f"step {k}: the labels of the result are not the labels of the input "
+                            "frame", observed=o)
             if o["names"] != names:
                 return fail(f"names:{lk}", f"step {k}: output column names differ from numerical columns ++ "
                             "generated names", expected=names, observed=o["names"])
@@ -696,7 +728,8 @@ def stats(cases, obss):
     d = {"total": 0, "task": {}, "ncat": {}, "nnum": {}, "labels": {}, "rows": {}, "calls": 0, "call_errors": 0,
          "unfitted_calls": 0, "unseen_calls": 0, "roundtrips": {}, "fit_errors": 0, "calls_with_missing": 0,
          "history_len": {}, "instances": {}, "calls_after_another_instance_was_fitted": 0,
-         "repeated_frame_calls": 0, "loads_of_saved_state": 0}
+         "repeated_frame_calls": 0, "loads_of_saved_state": 0, "name_clash_fits": 0,
+         "lookalike_names_without_clash": 0}
     for c, o in zip(cases, obss):
         if c is None:
             continue
@@ -715,6 +748,16 @@ def stats(cases, obss):
                 d["ncat"][len(f["cat"]["names"])] = d["ncat"].get(len(f["cat"]["names"]), 0) + 1
                 d["fit_errors"] += int(not ob["ok"])
                 fit_order.append(inst)
+                gen = {f"{cn}_{i}" for cn in f["cat"]["names"] for i in range(4)}
+                look = [nm for nm in (f["num"]["names"] if f["num"] else []) if nm in gen]
+                if look:
+                    try:
+                        ref_fit(f, st["stats"])
+                        d["lookalike_names_without_clash"] += 1
+                    except RefClash:
+                        d["name_clash_fits"] += 1
+                    except RefErr:
+                        pass
             elif st["op"] in ("roundtrip", "save"):
                 d["roundtrips"][st["how"]] = d["roundtrips"].get(st["how"], 0) + 1
             elif st["op"] == "load":
@@ -794,7 +837,8 @@ def coq_term(case, obs):
         return None
     if any(v == "inf" for o in obs["steps"] for c in o.get("cols", []) for v in c):
         return "false"
-    if any(not o.get("src_same", True) or not o.get("is_new", True) for o in obs["steps"]):
+    if any(not o.get("src_same", True) or not o.get("is_new", True) or not o.get("y_same", True)
+           for o in obs["steps"]):
         return "false"               # the model's purity assumption (call = forward of an untouched copy) is violated
     if any(st["op"] in ("save", "load", "roundtrip") and not o["ok"] for st, o in zip(case["steps"], obs["steps"])):
         return "false"
@@ -806,3 +850,36 @@ def coq_term(case, obs):
         os_ = C.clist(mine, lambda p_: coq_obs(*p_))
         terms.append(f"history_agrees {cq(inst_tol(case, inst))} {steps} {os_}")
     return "(" + " && ".join(terms) + ")"
+
+
+def sanity(cases, obss):
+    """Fail-closed distribution check: a run whose inputs degenerate must not report green."""
+    d = stats(cases, obss)
+    probs = []
+    if d["total"] == 0 or d["calls"] == 0:
+        return ["no histories / no calls"]
+    for t in ("regression", "binary", "multiclass", "multi"):
+        if d["task"].get(t, 0) == 0:
+            probs.append(f"task {t} never drawn")
+    for k in LABEL_KINDS:
+        if d["labels"].get(k, 0) == 0:
+            probs.append(f"label content '{k}' never drawn")
+    for k in ("all", "single", "subset", "multiset", "same", "repeat"):
+        if d["rows"].get(k, 0) == 0:
+            probs.append(f"row selection '{k}' never drawn")
+    if d["nnum"].get(0, 0) == 0 or sum(v for k_, v in d["nnum"].items() if k_ > 0) == 0:
+        probs.append("frames with AND without numerical columns are not both drawn")
+    for k in ("direct", "deepcopy", "torch"):
+        if d["roundtrips"].get(k, 0) == 0:
+            probs.append(f"state_dict round trip '{k}' never drawn")
+    if d["call_errors"] > 0.4 * d["calls"]:
+        probs.append(f"{d['call_errors']} of {d['calls']} calls raise")
+    if d["fit_errors"] > 0.2 * d["total"]:
+        probs.append(f"{d['fit_errors']} fits raise")
+    for k in ("unfitted_calls", "unseen_calls", "calls_with_missing", "calls_after_another_instance_was_fitted",
+              "repeated_frame_calls", "loads_of_saved_state", "name_clash_fits", "lookalike_names_without_clash"):
+        if d[k] == 0:
+            probs.append(f"{k} = 0")
+    if sum(v for k_, v in d["instances"].items() if k_ >= 2) == 0:
+        probs.append("no history with several transform instances")
+    return probs
